@@ -15,6 +15,7 @@ def form_text_budget(chk):
     thorough = chk.tier == 'thorough'
     by_b = {}
     b = b'Bnd'
+    specs, metas = [], []
     for _ in range(1500 if thorough else 200):
         buf = rng.choice([200, 300, 800])
         n = rng.choice([1, 2, 3, 8, 40])
@@ -28,19 +29,21 @@ def form_text_budget(chk):
             else:
                 fs.append({'name': 't%d' % i, 'value': 'v' * max(0, size + rng.randint(-3, 3))})
         body = mplib.encode_form(fs, b)
-        res = fl.post(buf, body, 'multipart/form-data; boundary=Bnd', chunked=rng.random() < 0.3, rng=rng)
-        t = fl.to_trace(body, buf, 'budget', fs, res, full=res['one_piece'])
-        by_b.setdefault(b, []).append((t, {'buf': buf, 'n': n, 'size': size}))
+        specs.append({'buf': buf, 'body': body, 'ctype': 'multipart/form-data; boundary=Bnd', 'what': 'forms+files', 'chunked': rng.random() < 0.3,
+                      'seed': rng.randrange(10 ** 9)})
+        metas.append((body, buf, 'budget', fs, {'buf': buf, 'n': n, 'size': size}))
         chk.count(1, ('budget', buf, n, size, len(body)))
     # urlencoded text
     for _ in range(400 if thorough else 80):
         buf = rng.choice([50, 300, 1000])
         k = rng.choice([buf - 10, buf - 4, buf - 3, buf - 2, buf, buf + 1, 4 * buf])
         body = b'a=' + b'v' * max(0, k)
-        res = fl.post(buf, body, 'application/x-www-form-urlencoded', what='forms', chunked=False, rng=None)
-        t = fl.to_trace(body, buf, 'raw', None, res)
-        by_b.setdefault(b, []).append((t, {'buf': buf, 'n': 1, 'size': k, 'urlencoded': True}))
+        specs.append({'buf': buf, 'body': body, 'ctype': 'application/x-www-form-urlencoded', 'what': 'forms', 'chunked': False, 'seed': None})
+        metas.append((body, buf, 'raw', None, {'buf': buf, 'n': 1, 'size': k, 'urlencoded': True}))
         chk.count(1, ('urlenc', buf, k))
+    for (body, buf, kind, fs, m), res in zip(metas, fl.post_batch(specs, time_limit=10.0)):
+        t = fl.to_trace(body, buf, kind, fs, res, full=(kind == 'budget' and res.get('one_piece', False)))
+        by_b.setdefault(b, []).append((t, m))
 
     def describe(t, m, rel, bnd):
         chk.violation('C13: %s fails: %s text field(s) of about %s bytes with max_memfile_size %s -> status %s, %s bytes of text loaded'
